@@ -25,6 +25,12 @@ CHECKS.update(
     C16=dict(text=L1 + "rho argument of successive trials positive, monotone, constant under the constant policy, DualNorm bounds; solver.rho read inside callbacks.", note=L1NOTE, ref="DESIGN.md §6 C16"),
 )
 
+ARR = "Symbolic execution of the real Transformation / ScaledProblem / ConstrainedProblem / evaluator code at symbolic internal points, multipliers and integer power-of-two weights (|w|<=W) over an uninterpreted user problem in COO/CSR/CSC; "
+CHECKS.update(
+    C04=dict(text=ARR + "objective, gradient, constraints, Jacobian, Hessian and bounds proved equal, term by term, to the reference transformation written from the statement; UF congruence pins the evaluation points/multipliers handed to the user; round trip and slack start proved. n<=2, m<=1 (thorough m<=2, W=3).", note="Exact reals with v*2^e tables (bit-exactness of power-of-two scaling in binary64 absent overflow is an FP lemma, not re-derived per path); custom weights; bounds n,m<=2, |w|<=W; numpy/scipy model trusted, cross-checked by concrete replay.", ref="DESIGN.md §6 C04"),
+    C11=dict(text=ARR + "z3-term snapshots of every caller-owned array and of every cached/memoised callback result compared after each entry point (3 evaluation rounds incl. a cache hit, transform/restore, start iterate); values returned on cache hits still equal the reference transformation. scipy share/copy table measured on the installed scipy at every run.", note="Aliasing model of numpy/scipy (measured table in evidence) trusted; policies: cached constant J/H, memoised per point; n=m=1 quick, n,m<=2 thorough; a whole solve's iteration machinery is outside this check.", ref="DESIGN.md §6 C11"),
+)
+
 NOT_APPLICABLE = {
     "C03": "liveness/convergence of hundreds of floating-point Newton iterations with data-dependent trip count: no bounded symbolic encoding can decide it (DESIGN.md §7)",
 }
